@@ -7,14 +7,6 @@ verus! {
 //@include inc/raw_header.rs
 
 // ---------------------------------------------------------------- raw.rs: TLV walk over the attribute bytes
-// attribute header at pos: type(16) length(16); the value is padded to a multiple of 4 (RFC 8489 section 14)
-pub open spec fn tlv_len(body: Seq<u8>, pos: int) -> int { be16(body.subrange(pos + 2, pos + 4)) }
-pub open spec fn tlv_type(body: Seq<u8>, pos: int) -> int { be16(body.subrange(pos, pos + 2)) }
-pub open spec fn tlv_next(body: Seq<u8>, pos: int) -> int { pos + 4 + tlv_len(body, pos) + pad4(tlv_len(body, pos)) }
-// a complete, padded TLV starts at pos
-pub open spec fn tlv_ok(body: Seq<u8>, pos: int) -> bool {
-    0 <= pos && pos + 4 <= body.len() && tlv_next(body, pos) <= body.len()
-}
 //@item! stun_rs :: mod raw > struct RawAttribute
 //@item! stun_rs :: mod raw > struct RawAttributes
 //@item! stun_rs :: mod raw > struct RawAttributesIter
@@ -101,23 +93,6 @@ impl<'a> RawAttributes<'a> {
 //@end
 }
 
-// ---- RFC 8489 14.5-14.7: the text a MAC / CRC is computed over: the message up to (excluding) the first attribute
-// of the given type, with the header length adjusted to point at the end of that attribute
-pub open spec fn find_tlv(body: Seq<u8>, pos: int, t: int) -> Option<(int, int)>
-    decreases body.len() - pos
-{
-    if pos < 0 || pos >= body.len() || !tlv_ok(body, pos) { None }
-    else if tlv_type(body, pos) == t { Some((pos, tlv_next(body, pos))) }
-    else { find_tlv(body, tlv_next(body, pos), t) }
-}
-pub open spec fn input_text(b: Seq<u8>, t: int) -> Option<Seq<u8>> {
-    if header_ok(b) && b.len() >= 20 + be16(b.subrange(2, 4)) {
-        match find_tlv(b.subrange(20, 20 + be16(b.subrange(2, 4))), 0, t) {
-            Some(se) => Some(set_len(b.subrange(0, 20 + se.0), se.1)),
-            None => None,
-        }
-    } else { None }
-}
 pub open spec fn opt_usize_none(o: Option<usize>) -> bool { o is None }
 pub open spec fn found_is(len: Option<usize>, pos: usize, body: Seq<u8>, t: int) -> bool {
     match len { Some(l) => find_tlv(body, 0, t) == Some((pos as int, l as int)) && l <= body.len(),
@@ -228,12 +203,6 @@ impl<'a> AttributeDecoderContext<'a> {
 // ---- the attribute, abstract in this unit (per-kind decoders: unit attrs)
 #[verifier::external_body]
 pub struct StunAttribute { _p: () }
-pub uninterp spec fn registered(t: u16) -> bool;
-// what the registered decoder of type t makes of a value, given the message bytes before it (XOR attributes read the
-// transaction id from there); None if it rejects the value
-pub uninterp spec fn dec_attr(t: u16, value: Seq<u8>, prefix: Seq<u8>) -> Option<StunAttribute>;
-pub uninterp spec fn unknown_attr(t: u16, data: Option<Seq<u8>>) -> StunAttribute;
-pub uninterp spec fn attr_verifies(a: StunAttribute, input: Seq<u8>, ctx: DecoderContext) -> bool;
 impl StunAttribute {
     pub uninterp spec fn spec_type(&self) -> u16;
     pub uninterp spec fn verifiable(&self) -> bool;
@@ -298,12 +267,6 @@ impl From<Unknown> for StunAttribute {
 //@spec
     ensures r is Ok <==> !needs_validation(*ctx, *attr) || attr_valid(*attr, buffer@, ctx->Some_0),
 //@end
-pub open spec fn needs_validation(ctx: Option<DecoderContext>, a: StunAttribute) -> bool {
-    ctx is Some && ctx->Some_0.validation && a.verifiable()
-}
-pub open spec fn attr_valid(a: StunAttribute, b: Seq<u8>, ctx: DecoderContext) -> bool {
-    input_text(b, a.spec_type() as int) is Some && attr_verifies(a, input_text(b, a.spec_type() as int)->Some_0, ctx)
-}
 //@item! stun_rs :: mod context > struct AttributeFilter
 impl Default for AttributeFilter {
 //@item stun_rs :: mod context > impl ::core::default::Default for AttributeFilter > fn default
@@ -363,170 +326,7 @@ pub fn with_attribute(self, attribute: StunAttribute) -> (r: Self)
 //@end
 }
 
-// ---- what decoding means (C01/C03/C09/C18): a function of the bytes and the options
-// TLV starts of the attribute area; None if the area is not an exact sequence of padded TLVs
-pub open spec fn walk(body: Seq<u8>, pos: int) -> Option<Seq<int>>
-    decreases body.len() - pos
-{
-    if pos < 0 || pos > body.len() { None }
-    else if pos == body.len() { Some(Seq::<int>::empty()) }
-    else if !tlv_ok(body, pos) { None }
-    else { match walk(body, tlv_next(body, pos)) { Some(r) => Some(seq![pos] + r), None => None } }
-}
-pub open spec fn types_at(body: Seq<u8>, sts: Seq<int>) -> Seq<u16> {
-    Seq::new(sts.len(), |i: int| tlv_type(body, sts[i]) as u16)
-}
-// the attribute the decoder builds for the TLV at `st`: the registered handler's result, or Unknown (with or without data)
-pub open spec fn attr_at(b: Seq<u8>, st: int, unknown_data: bool) -> Option<StunAttribute> {
-    let body = b.subrange(20, 20 + be16(b.subrange(2, 4)));
-    let t = tlv_type(body, st) as u16;
-    let v = body.subrange(st + 4, st + 4 + tlv_len(body, st));
-    if registered(t) { dec_attr(t, v, b.subrange(0, 20 + st)) }
-    else { Some(unknown_attr(t, if unknown_data { Some(v) } else { None })) }
-}
-pub open spec fn opt_validation(c: Option<DecoderContext>) -> bool { c is Some && c->Some_0.validation }
-pub open spec fn opt_unknown_data(c: Option<DecoderContext>) -> bool { c is Some && c->Some_0.unknown_data }
-pub open spec fn opt_not_ignore(c: Option<DecoderContext>) -> bool { c is Some && c->Some_0.not_ignore }
-// the attributes of the decoded message after the first k TLVs; None as soon as a handler rejects its value (every TLV is
-// parsed, admitted or not) or an *included* verifiable attribute fails validation
-pub open spec fn dec_upto(b: Seq<u8>, sts: Seq<int>, k: int, c: Option<DecoderContext>) -> Option<Seq<StunAttribute>>
-    decreases k
-{
-    let body = b.subrange(20, 20 + be16(b.subrange(2, 4)));
-    if k <= 0 { Some(Seq::<StunAttribute>::empty()) }
-    else {
-        match dec_upto(b, sts, k - 1, c) {
-            None => None,
-            Some(acc) => match attr_at(b, sts[k - 1], opt_unknown_data(c)) {
-                None => None,
-                Some(a) => {
-                    if opt_not_ignore(c) || admitted(types_at(body, sts), k - 1) {
-                        if needs_validation(c, a) && !attr_valid(a, b, c->Some_0) { None } else { Some(acc.push(a)) }
-                    } else { Some(acc) }
-                },
-            },
-        }
-    }
-}
-pub open spec fn decoded(b: Seq<u8>, c: Option<DecoderContext>) -> Option<Seq<StunAttribute>> {
-    if header_ok(b) && b.len() >= 20 + be16(b.subrange(2, 4)) {
-        match walk(b.subrange(20, 20 + be16(b.subrange(2, 4))), 0) {
-            Some(sts) => dec_upto(b, sts, sts.len() as int, c),
-            None => None,
-        }
-    } else { None }
-}
-// consecutive TLV starts from 0 up to position p
-pub open spec fn walk_prefix(body: Seq<u8>, sts: Seq<int>, p: int) -> bool {
-    &&& (sts.len() == 0 ==> p == 0)
-    &&& (sts.len() > 0 ==> sts[0] == 0 && p == tlv_next(body, sts[sts.len() - 1]))
-    &&& (forall|i: int| 0 <= i < sts.len() ==> tlv_ok(body, #[trigger] sts[i]))
-    &&& (forall|i: int| 0 <= i < sts.len() - 1 ==> #[trigger] sts[i + 1] == tlv_next(body, sts[i]))
-}
-proof fn lemma_walk_join(body: Seq<u8>, sts: Seq<int>, p: int)
-    requires walk_prefix(body, sts, p), 0 <= p <= body.len(),
-    ensures walk(body, 0) == (match walk(body, p) { Some(r) => Some(sts + r), None => None::<Seq<int>> }),
-    decreases sts.len(),
-{
-    if sts.len() == 0 {
-        assert(sts + walk(body, p)->Some_0 =~= walk(body, p)->Some_0);
-    } else {
-        let last = sts[sts.len() - 1];
-        let init = sts.subrange(0, sts.len() - 1);
-        assert(walk_prefix(body, init, last)) by {
-            if init.len() > 0 { assert(init[init.len() - 1] == sts[sts.len() - 2]); assert(sts[sts.len() - 2 + 1] == tlv_next(body, sts[sts.len() - 2])); }
-            else { assert(sts[0] == 0); }
-        }
-        lemma_walk_join(body, init, last);
-        assert(tlv_ok(body, last));
-        assert(last < body.len());
-        match walk(body, p) {
-            Some(r) => { assert(init + (seq![last] + r) =~= sts + r); },
-            None => {},
-        }
-    }
-}
-proof fn lemma_admitted_prefix(ts: Seq<u16>, t: u16, i: int)
-    requires 0 <= i < ts.len(),
-    ensures admitted(ts.push(t), i) == admitted(ts, i),
-{
-    assert forall|k: int| seen(ts.push(t), i, k) == seen(ts, i, k) by {
-        if seen(ts.push(t), i, k) {
-            let j = choose|j: int| 0 <= j < i && kind_of(#[trigger] ts.push(t)[j]) == k;
-            assert(ts[j] == ts.push(t)[j]);
-        }
-        if seen(ts, i, k) {
-            let j = choose|j: int| 0 <= j < i && kind_of(#[trigger] ts[j]) == k;
-            assert(ts.push(t)[j] == ts[j]);
-        }
-    }
-    assert(ts.push(t)[i] == ts[i]);
-}
-proof fn lemma_dec_upto_prefix(b: Seq<u8>, sts: Seq<int>, x: int, k: int, c: Option<DecoderContext>)
-    requires 0 <= k <= sts.len(),
-    ensures dec_upto(b, sts.push(x), k, c) == dec_upto(b, sts, k, c),
-    decreases k,
-{
-    if k > 0 {
-        let body = b.subrange(20, 20 + be16(b.subrange(2, 4)));
-        lemma_dec_upto_prefix(b, sts, x, k - 1, c);
-        assert(sts.push(x)[k - 1] == sts[k - 1]);
-        assert(types_at(body, sts.push(x)) =~= types_at(body, sts).push(tlv_type(body, x) as u16));
-        lemma_admitted_prefix(types_at(body, sts), tlv_type(body, x) as u16, k - 1);
-    }
-}
-
-proof fn lemma_dec_upto_prefix_seq(b: Seq<u8>, sts: Seq<int>, r: Seq<int>, k: int, c: Option<DecoderContext>)
-    requires 0 <= k <= sts.len(),
-    ensures dec_upto(b, sts + r, k, c) == dec_upto(b, sts, k, c),
-    decreases r.len(),
-{
-    if r.len() == 0 {
-        assert(sts + r =~= sts);
-    } else {
-        let r0 = r.subrange(0, r.len() - 1);
-        lemma_dec_upto_prefix_seq(b, sts, r0, k, c);
-        assert(sts + r =~= (sts + r0).push(r[r.len() - 1]));
-        lemma_dec_upto_prefix(b, sts + r0, r[r.len() - 1], k, c);
-    }
-}
-proof fn lemma_dec_none_mono(b: Seq<u8>, sts: Seq<int>, k: int, m: int, c: Option<DecoderContext>)
-    requires 0 <= k <= m, dec_upto(b, sts, k, c) is None,
-    ensures dec_upto(b, sts, m, c) is None,
-    decreases m - k,
-{
-    if k < m { lemma_dec_none_mono(b, sts, k, m - 1, c); }
-}
-proof fn lemma_flags_prefix(ts: Seq<u16>, t: u16, i: int)
-    requires 0 <= i <= ts.len(),
-    ensures flags_at(ts.push(t), i) == flags_at(ts, i),
-    decreases i,
-{
-    if i > 0 { lemma_flags_prefix(ts, t, i - 1); assert(ts.push(t)[i - 1] == ts[i - 1]); }
-}
-// a failing step makes the whole decoding fail (whatever follows)
-proof fn lemma_step_fail(b: Seq<u8>, sts: Seq<int>, p: int, c: Option<DecoderContext>)
-    requires header_ok(b), b.len() >= 20 + be16(b.subrange(2, 4)),
-        walk_prefix(b.subrange(20, 20 + be16(b.subrange(2, 4))), sts, p), tlv_ok(b.subrange(20, 20 + be16(b.subrange(2, 4))), p),
-        dec_upto(b, sts.push(p), sts.len() as int + 1, c) is None,
-    ensures decoded(b, c) is None,
-{
-    let body = b.subrange(20, 20 + be16(b.subrange(2, 4)));
-    let s1 = sts.push(p);
-    assert(walk_prefix(body, s1, tlv_next(body, p))) by {
-        assert forall|i: int| 0 <= i < s1.len() - 1 implies #[trigger] s1[i + 1] == tlv_next(body, s1[i]) by {
-            if i + 1 < sts.len() { assert(sts[i + 1] == tlv_next(body, sts[i])); }
-        }
-    }
-    lemma_walk_join(body, s1, tlv_next(body, p));
-    match walk(body, tlv_next(body, p)) {
-        Some(r) => {
-            lemma_dec_upto_prefix_seq(b, s1, r, s1.len() as int, c);
-            lemma_dec_none_mono(b, s1 + r, s1.len() as int, (s1 + r).len() as int, c);
-        },
-        None => {},
-    }
-}
+//@include inc/dec_vocab.rs
 //@item! stun_rs :: mod context > struct MessageDecoder
 impl MessageDecoder {
 //@item stun_rs :: mod context > impl MessageDecoder > fn decode
